@@ -3,6 +3,7 @@
 //   drv_c05 freeze-big <dir> <seed>     (run ONCE, by hand, to create /verif/corpus_big: size-covering streams, see run_freeze_big)
 //   drv_c05 freeze-bounds <dir> <seed>  (run ONCE, by hand: streams on the representation boundaries, appended to /verif/corpus_big)
 //   drv_c05 freeze-handles <dir> <seed> <n>  (run ONCE, by hand: Edgebreaker streams with two topology-split events at one symbol, appended to /verif/corpus_big)
+//   drv_c05 freeze-cmp <dir> <seed>     (run ONCE, by hand: Edgebreaker grids coded with the constrained multi-parallelogram scheme, appended to /verif/corpus)
 //   drv_c05 freeze-lkq <dir> <seed>     (run ONCE, by hand: bitstream-2.2 kd-tree clouds of the float tree method, appended to /verif/corpus)
 //   drv_c05 freeze-kd <dir> <seed>      (run ONCE, by hand: small kD-tree clouds at the highest tree level, appended to /verif/corpus)
 //   drv_c05 freeze-skip <dir>           (run ONCE per corpus directory, by hand: digests of the decodes with the attribute transform skipped)
@@ -247,6 +248,43 @@ static int run_freeze_lkq(const std::string &dir, uint64_t seed) {
     }
   }
   fprintf(stderr, "froze %ld legacy float-tree streams\n", k);
+  return 0;
+}
+
+// Edgebreaker meshes coded with the constrained multi-parallelogram scheme (speeds 0 and 1, 40 or more points): grids with pseudo-random diagonals, so
+// that every parallelogram-count context carries dozens of crease flags.  The fault sweep visits every offset of the streams named c* with the values
+// 64, 128 and 192 (flag counts that end on a word boundary of the flag vectors).  Appended to <dir>.
+static int run_freeze_cmp(const std::string &dir, uint64_t seed) {
+  vrt::Rng r(seed);
+  std::ofstream idx(dir + "/index.ndjson", std::ios::app);
+  long k = 0;
+  for (int side : {9, 13, 17}) {
+    for (int speed = 0; speed < 2; ++speed) {
+      Geom g; g.is_mesh = true; g.pc.reset(new Mesh()); g.shape = "grid-diag";
+      const int np = side * side;
+      g.pc->set_num_points(np);
+      AttDesc d{GeometryAttribute::POSITION, DT_INT32, 3, false, true, np};
+      const int id = add_attribute(g.pc.get(), d, np);
+      for (int y = 0; y < side; ++y) for (int x = 0; x < side; ++x) { const int32_t p[3] = {x * 8 + (int32_t)r.below(5), y * 8 + (int32_t)r.below(5), (int32_t)r.below(9)}; g.pc->attribute(id)->SetAttributeValue(AttributeValueIndex(y * side + x), p); }
+      for (int y = 0; y + 1 < side; ++y) for (int x = 0; x + 1 < side; ++x) {
+        const int a = y * side + x, b = a + 1, c = a + side, e = c + 1;
+        Mesh::Face f1, f2;
+        if (r.coin()) { f1[0] = PointIndex(a); f1[1] = PointIndex(b); f1[2] = PointIndex(c); f2[0] = PointIndex(b); f2[1] = PointIndex(e); f2[2] = PointIndex(c); }
+        else { f1[0] = PointIndex(a); f1[1] = PointIndex(b); f1[2] = PointIndex(e); f2[0] = PointIndex(a); f2[1] = PointIndex(e); f2[2] = PointIndex(c); }
+        g.mesh()->AddFace(f1); g.mesh()->AddFace(f2);
+      }
+      Opt o; o.expert = true; o.method = 1; o.es = o.ds = speed; o.qbits.assign(1, 0);
+      Encoded e = encode(g, o);
+      if (!e.ok) { fprintf(stderr, "skip: %s\n", e.err.c_str()); continue; }
+      Decoded dd = decode(e.bytes.data(), e.bytes.size());
+      if (!dd.ok) { fprintf(stderr, "skip: does not decode (%s)\n", dd.err.c_str()); continue; }
+      char name[64]; snprintf(name, sizeof name, "c%04ld.drc", k++);
+      std::ofstream f(dir + "/" + name, std::ios::binary); f.write(e.bytes.data(), e.bytes.size());
+      idx << "{\"file\":\"" << name << "\",\"digest\":" << h64(geom_digest(*dd.pc, dd.is_mesh)) << ",\"np\":" << dd.pc->num_points() << ",\"nf\":" << dd.mesh()->num_faces() << ",\"gt\":\"mesh\",\"method\":1"
+          << ",\"es\":" << o.es << ",\"pred\":" << o.pred << ",\"builtin\":true,\"what\":\"constrained multi-parallelogram, " << side << "x" << side << " grid\",\"bytes\":" << e.bytes.size() << "}\n";
+    }
+  }
+  fprintf(stderr, "froze %ld constrained multi-parallelogram streams\n", k);
   return 0;
 }
 
@@ -510,6 +548,7 @@ int main(int argc, char **argv) {
   if (argc >= 4 && !strcmp(argv[1], "freeze-wide-charts")) return run_freeze_wide_charts(argv[2], strtoull(argv[3], 0, 10));
   if (argc >= 5 && !strcmp(argv[1], "freeze-islands")) return run_freeze_islands(argv[2], strtoull(argv[3], 0, 10), atol(argv[4]));
   if (argc >= 4 && !strcmp(argv[1], "freeze-bounds")) return run_freeze_bounds(argv[2], strtoull(argv[3], 0, 10));
+  if (argc >= 4 && !strcmp(argv[1], "freeze-cmp")) return run_freeze_cmp(argv[2], strtoull(argv[3], 0, 10));
   if (argc >= 4 && !strcmp(argv[1], "freeze-lkq")) return run_freeze_lkq(argv[2], strtoull(argv[3], 0, 10));
   if (argc >= 4 && !strcmp(argv[1], "freeze-kd")) return run_freeze_kd(argv[2], strtoull(argv[3], 0, 10));
   if (argc >= 3 && !strcmp(argv[1], "freeze-skip")) return run_freeze_skip(argv[2]);
